@@ -346,6 +346,26 @@ pub fn tail_binding_family() -> Vec<(String, Vec<Form>)> {
     for (name, e) in bodies {
         out.push((format!("error in a non-final body form: {}", name), vec![Form::Expr(e), Form::Expr(Expr::Quote(kw("next-form")))]));
     }
+    // a body whose first form is a call of a call: ((mk 1) (id k)) is a list of two-element lists, like a binding list
+    let mk = Form::Define(Def { name: "mk".into(), value: lam(&["a"], Body { defs: vec![], exprs: vec![lam(&["b"], Body { defs: vec![], exprs: vec![Expr::Tick(1, Box::new(app("list", vec![var("a"), var("b")])))] })] }), sugar: true });
+    let idp = Form::Define(Def { name: "id".into(), value: lam(&["v"], Body { defs: vec![], exprs: vec![var("v")] }), sugar: true });
+    let curried = |arg: Expr| Expr::App(Box::new(app("mk", vec![Expr::Int(1)])), vec![app("id", vec![arg])]);
+    let body2 = |first: Expr| Box::new(Body { defs: vec![], exprs: vec![first, app("list", vec![var("k"), Expr::Int(0)])] });
+    out.push(("let whose body starts with a curried call".into(), vec![mk.clone(), idp.clone(), Form::Expr(Expr::Let(vec![("k".into(), Expr::Int(3))], body2(curried(var("k")))))]));
+    out.push(("let* whose body starts with a curried call".into(), vec![mk.clone(), idp.clone(), Form::Expr(Expr::LetStar(vec![("j".into(), Expr::Int(2)), ("k".into(), var("j"))], body2(curried(var("k")))))]));
+    out.push(("let with two bindings and a curried call".into(), vec![mk.clone(), idp.clone(), Form::Expr(Expr::Let(vec![("k".into(), Expr::Int(3)), ("m".into(), Expr::Int(4))], body2(curried(var("m")))))]));
+    out.push(("empty let whose body starts with a curried call".into(), vec![mk.clone(), idp.clone(), Form::Define(Def { name: "k".into(), value: Expr::Int(9), sugar: false }), Form::Expr(Expr::Let(vec![], body2(curried(Expr::Int(5)))))]));
+    // r7rs has no reserved words: a variable may be named like a derived form and is then an ordinary variable
+    for (a, b) in [("begin", "end"), ("when", "unless"), ("case", "and"), ("let", "or"), ("cond", "else")] {
+        out.push((
+            format!("variables named {} and {} bound by let", a, b),
+            vec![Form::Expr(Expr::Let(vec![(a.into(), Expr::Int(3)), (b.into(), Expr::Int(10))], body1(app("-", vec![var(b), var(a)]))))],
+        ));
+        out.push((
+            format!("parameters named {} and {}", a, b),
+            vec![Form::Expr(Expr::App(Box::new(lam(&[a, b], Body { defs: vec![], exprs: vec![app("list", vec![var(a), var(b)])] })), vec![Expr::Int(1), Expr::Int(2)]))],
+        ));
+    }
     out
 }
 
